@@ -1,7 +1,9 @@
 package props
 
 import (
+	"encoding/binary"
 	"fmt"
+	"sort"
 	"hash/fnv"
 	"os"
 
@@ -78,6 +80,12 @@ func runC12(c *sim.Ctx) {
 		return handle{d, m}, nil
 	}
 
+	bases := map[int]ops.Result{}
+	defer func() {
+		if c.Viol == nil {
+			c12ChainCuts(c, img, u, btreePages, family, bases, open)
+		}
+	}()
 	for oi, op := range family {
 		// fault-free execution: result and number of reads
 		m0 := &pg.Mem{Image: img}
@@ -98,6 +106,7 @@ func runC12(c *sim.Ctx) {
 			c.Log.Add("sim", "op", "%d %s baseline-error", oi, op.Kind)
 			continue
 		}
+		bases[oi] = base
 		// the fault-free result must itself be stable on a second handle
 		c.Log.Add("sim", "op", "%d %s reads=%d rows=%d", oi, op.String(), n, len(base.Rows))
 		c.Note("op %s: %d page reads, %d rows fault-free", op.String(), n, len(base.Rows))
@@ -239,4 +248,79 @@ func init() {
 			return nil
 		},
 	})
+}
+
+// c12ChainCuts: corruption the reader can detect by counting - an overflow chain that
+// ends before it has delivered the bytes its cell claims (the next-page pointer of a
+// page in the middle of a chain is zero). Every operation must then either fail, having
+// delivered a prefix of its fault-free result, or not be affected at all; it may not
+// succeed with other content.
+func c12ChainCuts(c *sim.Ctx, img []byte, u int, btreePages map[int]bool, family []ops.Op, bases map[int]ops.Result, open func(m *pg.Mem) (handle, error)) {
+	s := c.Src
+	np := len(img) / u
+	var cuts []int // page numbers whose next pointer can be zeroed
+	seen := map[int]bool{}
+	for no := range btreePages {
+		p := pagewalk.Parse(img, u, no)
+		if !p.Valid {
+			continue
+		}
+		for _, cell := range p.Cells {
+			if cell.OvflOff < 0 || cell.Ovfl < 1 || cell.Ovfl > np {
+				continue
+			}
+			var chain []int
+			for q := cell.Ovfl; q >= 1 && q <= np && len(chain) < 64 && !seen[q]; {
+				seen[q] = true
+				chain = append(chain, q)
+				q = int(binary.BigEndian.Uint32(img[(q-1)*u:]))
+			}
+			if len(chain) >= 2 {
+				cuts = append(cuts, chain[:len(chain)-1]...)
+			}
+		}
+	}
+	if len(cuts) == 0 {
+		return
+	}
+	sort.Ints(cuts)
+	for k := 0; k < 3 && k < len(cuts); k++ {
+		q := cuts[s.Draw(len(cuts), "chaincut")]
+		mut := append([]byte(nil), img...)
+		copy(mut[(q-1)*u:], []byte{0, 0, 0, 0})
+		c.Fault("overflow-chain-cut")
+		for oi, op := range family {
+			base, ok := bases[oi]
+			if !ok {
+				continue
+			}
+			m := &pg.Mem{Image: mut}
+			h, err := open(m)
+			if err != nil {
+				continue
+			}
+			m.ResetOp()
+			r := ops.Run(h.d, op, nil)
+			c.Eval(1)
+			if r.Panic != nil {
+				c.Inc("panics_under_fault", 1) // C05 territory
+				continue
+			}
+			detail := map[string]interface{}{"op": op.String(), "overflow_page": q, "rows_delivered": len(r.Rows), "rows_fault_free": len(base.Rows)}
+			if r.Err == nil {
+				if eq, at := rowsEq(base.Rows, r.Rows, false); !eq || r.NilRow != base.NilRow {
+					detail["first_bad_row"] = at
+					c.Fail("silent-failure", "silent:"+op.Kind+":overflow-chain-cut",
+						fmt.Sprintf("%s: the overflow chain through page %d ends early (next pointer 0) - the call returned nil error and content that differs from the intact file at row %d", op.String(), q, at), detail)
+				}
+				continue
+			}
+			c.Probe("chain-cut-reported")
+			if ok, at := prefixOf(r.Rows, base.Rows); !ok {
+				detail["first_bad_row"] = at
+				c.Fail("wrong-rows-under-fault", "notprefix:"+op.Kind+":overflow-chain-cut",
+					fmt.Sprintf("%s: rows delivered before the error are not a prefix of the intact result (row %d)", op.String(), at), detail)
+			}
+		}
+	}
 }
